@@ -37,6 +37,10 @@ CHECKS = {
    text="Production-wired claim reconciler (both syncers) syncs thousands of generated claims and XR pre-states twice (first sync, re-sync after a user edit and an XR status change) over sim; the stored XR and claim are compared field by field with a partition written from the property statement (claim->XR, never claim->XR, preserved on XR, XR->claim, never XR->claim). CSA merge-back of XR spec fields into the claim is recorded as known findings; everything else must be silent.",
    note="Trusted: the partition table in c07/main.go (written from the statement), sim SSA via k8s managedfields; the XRD preserves unknown fields so no pruning model is needed; removal of fields deleted on the other side is not required (superset semantics for nested maps).",
    technique="runtime monitoring: generated object pairs against a reference field partition", ref="3/C07"),
+ "C09": dict(cat="exploration",
+   text="Generated connection-detail maps, XRD key filters, extraction configs and pre-existing secrets (absent, uncontrolled typed/untyped, owner-controlled, foreign-controlled, controller tampered before the claim copies) run through the real XR reconciler (both composers) and the production-wired claim reconciler (both syncers) over sim; oracle over the stored Secrets and every write addressed to a Secret (filter, provenance against a reference extraction, only-if-requested, exact copy only from a secret controlled by the bound XR, no rewrite of identical data).",
+   note="Trusted: " + SIM + "; the reference extraction (from the ConnectionDetail API docs); 'identical data never rewritten' is judged on requests only when the stored data equals exactly what would be published.",
+   technique="runtime monitoring: store/write-log oracle over generated secrets and ownership placements", ref="3/C09"),
  "C11": dict(cat="exploration",
    text="Real xcrd.ForCompositeResource/ForCompositeResourceClaim, XRD Validate/ValidateUpdate and the real XRD admission webhook (over sim) run on thousands of generated XRDs and (old,new) pairs; outputs compared with an independent oracle and golden machinery schemas. Held on the generated inputs.",
    note="Trusted: golden/machinery_*.json (reviewed dump of the machinery schema); the generator's schema grammar; sim accepts any CRD body on dry-run so webhook denials come only from Crossplane's validation.",
